@@ -1,8 +1,6 @@
 package isobmff
 
 import (
-	"fmt"
-
 	"github.com/evanoberholster/imagemeta/exif2/ifds"
 	"github.com/evanoberholster/imagemeta/imagetype"
 	"github.com/evanoberholster/imagemeta/meta"
@@ -13,9 +11,6 @@ import (
 func (r *Reader) ReadMetadata() (err error) {
 	b, err := r.readBox()
 	if err != nil {
-		buf, err := r.br.Peek(128)
-		fmt.Println(buf, err, len(buf))
-		fmt.Println(string(buf))
 		return errors.Wrapf(err, "ReadMetadata")
 	}
 	switch b.boxType {
